@@ -94,6 +94,51 @@ class LoopInfo:
         self.detail = {}
 
 
+def _general_drain(b, L, fa, info):
+    """A loop in which every cycle through the header pops queue q, nothing in the loop pushes to q, and every pop
+    site is reached only after q was seen non-empty in that iteration (is(peek/front(q), Some) holds there, or the
+    popped value itself is unwrapped/tested) terminates: q shrinks on every iteration and an empty q cannot
+    complete a cycle.  Covers `while let Some(x) = q.peek() { …; q.pop() }` however the emptiness test is spelled
+    (`loop { let due = match q.peek() {…}; if !due { break } … }`)."""
+    from mirlib import dnf_holds
+    F = b.facts
+    pops_by_q = {}
+    for loc, t in b.calls():
+        if loc.bb not in L["body"] or not t.get("fn") or not t["args"]:
+            continue
+        sn = F.short(t["fn"])
+        if sn in PEEK_POP.values():
+            pops_by_q.setdefault((sn, show(b.operand_expr(t["args"][0]))), []).append(loc)
+    for (pop, q), locs in sorted(pops_by_q.items()):
+        if cycle_avoiding(b, L, {l.bb for l in locs}) is not None:
+            continue
+        pushes = []
+        for bb in L["body"]:
+            t = b.term(bb)
+            if t["k"] == "call" and t.get("fn") and F.short(t["fn"]) in PUSHES and show(b.operand_expr(t["args"][0])) == q:
+                pushes.append(Loc(bb, len(b.stmts(bb))))
+        peeks = [k for k, v in PEEK_POP.items() if v == pop]
+        ok_all = True
+        for l in locs:
+            lits = [[r"is\(%s\(%s\),Some\)" % (re.escape(pk), re.escape(q))] for pk in peeks]
+            g, _ = dnf_holds(fa.at(l), lits)
+            if not g:
+                ok_all = False
+        if not ok_all:
+            continue
+        info.cls = "drain"
+        info.desc = "loop popping %s(%s) after a non-emptiness test" % (pop, q)
+        info.detail["queue"] = q
+        info.detail["pops_in_loop"] = len(locs)
+        info.detail["pushes_in_loop"] = [b.span_at(p_) for p_ in pushes]
+        info.pushes = pushes
+        info.ok = not pushes
+        if pushes:
+            info.why = "the loop also pushes to %s (needs a reviewed table entry)" % q
+        return True
+    return False
+
+
 def classify(b, L, bitwidth, fa):
     """returns LoopInfo; cls in iterator|drain|counter|downcounter|unknown"""
     F = b.facts
@@ -104,6 +149,7 @@ def classify(b, L, bitwidth, fa):
         # `loop { ... }`: describe by the first call
         info.desc = "loop{" + (F.short(calls[0][1]["fn"]) if calls else "") + "}"
         info.cls = "unknown"
+        _general_drain(b, L, fa, info)
         return info
     e = b.operand_expr(sw["op"])
     info.desc = norm_vars(show(e))
@@ -257,4 +303,5 @@ def classify(b, L, bitwidth, fa):
                 info.detail["offending_cycle"] = b.path_spans(w)[:24]
             return info
     info.cls = "unknown"
+    _general_drain(b, L, fa, info)
     return info
